@@ -18,7 +18,8 @@ ASSUMPTIONS = [
     'D1 compares tables (widths and type words), not values',
 ]
 MANIFEST = {'text': 'proof (dominators + no intervening store) that every payload slice in the argument iterator is preceded by a length guard on the same bound; '
-                    'agreement of the encoder width/type-word table with the decoder tyle->length table.'}
+                    'agreement of the encoder width/type-word table with the decoder tyle->length table.'
+                    " Added: every decoded string passes the CR/LF/TAB replacement; every value narrowed into the encoder's 16-bit length prefix is bounded by 65535 by the dominating guards."}
 
 ARGIT = 'adlt::dlt::DltMessageArgIterator'
 SER = 'adlt::serde_verb_payload::ser_verb_payload::Serializer'
